@@ -5,8 +5,9 @@ def native(bin, q=None, t=None, name="native", flavour="debug", tiers=("quick", 
             "args": {"quick": q or [], "thorough": t or (q or [])},
             "timeout": timeout or {"quick": 600, "thorough": 3000}}
 
-def miri(bin, seeds_q, seeds_t, variants_q, variants_t, name="miri", tiers=("quick", "thorough"), flags=""):
+def miri(bin, seeds_q, seeds_t, variants_q, variants_t, name="miri", tiers=("quick", "thorough"), flags="", q=None, t=None):
     return {"name": name, "flavour": "miri", "bin": bin, "tiers": list(tiers),
+            "args": {"quick": q or [], "thorough": t or (q or [])},
             "seeds": {"quick": seeds_q, "thorough": seeds_t},
             "variants": {"quick": variants_q, "thorough": variants_t},
             "miriflags": flags,
@@ -59,6 +60,62 @@ PROPS = {
             native("c05_shutdown", ["secs=12"], ["secs=150"]),
             miri("c05_shutdown", 4, 24, [0, 1, 2, 3, 4, 5], [0, 1, 2, 3, 4, 5, 6, 7, 8, 9, 10, 11]),
             native("c05_shutdown", t=["secs=45", "lanes=3"], name="tsan", flavour="tsan", tiers=("thorough",)),
+        ],
+    },
+    "C02": {
+        "level": "exploration",
+        "assumptions": [
+            "the strict RFC 8259 parser in vcommon is the oracle for 'syntactically valid'; every line is also parsed by serde_json and a disagreement is a harness error, never a violation",
+            "when validations are off and the entry itself writes a member named _aws, the first _aws member is the formatter's",
+        ],
+        "legs": [
+            native("c02_emf_json", ["secs=15"], ["secs=200"]),
+            miri("c02_emf_json", 1, 1, [0], [0, 1, 2, 3], q=["entries=40"], t=["entries=120"]),
+            native("c02_emf_json", t=["secs=60", "lanes=8"], name="asan", flavour="asan", tiers=("thorough",)),
+        ],
+    },
+    "C03": {
+        "level": "exploration",
+        "assumptions": [
+            "the reference interpretation in checks/src/emf_util.rs (written from the crate documentation, sharing no code with emf.rs) is the oracle; the input space is the documented domain (unique names etc.)",
+            "above 2^53 the sampling weight is only required to be within 1 of 1/rate (C12), so the reference accepts floor-1..ceil+1 there",
+        ],
+        "legs": [
+            native("c03_emf_content", ["secs=15"], ["secs=200"]),
+        ],
+    },
+    "C08": {
+        "level": "exploration",
+        "assumptions": [
+            "the reference validity predicate (checks/src/emf_util.rs::validity) encodes the defect list of the statement; entries whose only oddity is not decided by that list (same metric name in two different dimension sets, per-metric dimension key colliding with another member name) are classified 'unspecified' and only checked for duplicate members",
+            "validation is 'promised' for Emf::all_validations in every profile and for Emf::builder() only in builds with debug assertions, as documented",
+        ],
+        "legs": [
+            native("c08_emf_validation", ["secs=10"], ["secs=120"], name="native-debug"),
+            native("c08_emf_validation", ["secs=10"], ["secs=120"], name="native-release", flavour="release"),
+        ],
+    },
+    "C14": {
+        "level": "exploration",
+        "assumptions": [
+            "records are compared as a multiset of lines (split records are emitted in hash order); for entries without a timestamp the generated _aws.Timestamp is replaced by a token after checking that it is not older than the run",
+            "for positions whose writer fails only the Ok/Validation/Io decision is compared; the effect of the failure on LATER positions is what is checked",
+        ],
+        "legs": [
+            native("c14_emf_independence", ["secs=12"], ["secs=150"]),
+        ],
+    },
+    "C16": {
+        "level": "fault_enumeration",
+        "assumptions": [
+            "the reference bytes of a record are those a plain Vec<u8> writer receives; split records may come in any order (hash order), so received bytes are matched against permutations of the reference lines",
+            "scripted writers/streams are the fault model: accept-k, Interrupted, zero-length, hard error, plain-write-only; per-entry Ok/Validation/Io and flush errors for streams",
+        ],
+        "coverage_extra": {"quick": {"exhaustive": False}, "thorough": {"exhaustive": False}},
+        "legs": [
+            native("c16_io_faults", ["secs=10"], ["secs=120"]),
+            miri("c16_io_faults", 1, 2, [0], [0, 1], q=["lanes=2"], t=["lanes=5"]),
+            native("c16_io_faults", t=["secs=40", "lanes=6", "sink_rounds=600"], name="asan", flavour="asan", tiers=("thorough",)),
         ],
     },
 }
